@@ -160,6 +160,8 @@ func verifC21Exec(op string) string {
 	verifC21Setup()
 	f := strings.Fields(op)
 	switch f[0] {
+	case "reset": // commands are independent: every case is its own one-op history
+		return "ok"
 	case "exp":
 		env := Environment{}
 		for _, kv := range verifC21ParseEnv(f[2]) {
@@ -329,7 +331,7 @@ func verifC21Value(r *verifutil.Rand, allowNul bool) string {
 }
 
 func verifC21Env(r *verifutil.Rand, allowNul bool) []verifC21KV {
-	n := r.Intn(5)
+	n := r.Intn(7)
 	if r.Chance(1, 10) {
 		n = 8 + r.Intn(6)
 	}
@@ -446,14 +448,18 @@ func verifC21TmplWord(r *verifutil.Rand, env, osenv []verifC21KV, hostile bool) 
 }
 
 func verifC21Gen(r *verifutil.Rand, i int, thorough bool) []string {
-	// processes are expensive: 1 run op in 4 cases, the rest exercise expandEnv in-process
-	kind := i % 8
+	return append([]string{"reset"}, verifC21Gen1(r, i, thorough)...)
+}
+
+func verifC21Gen1(r *verifutil.Rand, i int, thorough bool) []string {
+	// starting a process costs 0.1–0.2 s in the sandbox: 1 real run per 50 cases (each run carries
+	// several words and variables), the rest exercise expandEnv in-process
 	switch {
-	case kind == 0 || kind == 4: // run
+	case i%50 == 0: // run
 		hostile := r.Chance(1, 6)
 		env := verifC21Env(r, hostile)
 		osenv := verifC21OSEnv(r)
-		nw := r.Intn(5)
+		nw := r.Intn(9)
 		words := make([]string, nw)
 		for j := range words {
 			words[j] = verifC21TmplWord(r, env, osenv, hostile)
@@ -474,7 +480,7 @@ func verifC21Gen(r *verifutil.Rand, i int, thorough bool) []string {
 		}
 		return []string{fmt.Sprintf("run %s %s %s %s %d", verifutil.HexS(tmpl),
 			verifC21Oracle("H "+tmpl, true), verifC21FmtEnv(env), verifC21FmtEnv(osenv), code)}
-	case kind == 7 && i%64 == 7: // degenerate commands
+	case i%200 == 7: // degenerate commands
 		env := verifC21Env(r, false)
 		osenv := verifC21OSEnv(r)
 		cmd := r.Pick("", " ", "\t\n", "\\\n", "  \\\n  ", "'", "\"abc", "x\\", "'a' \"",
@@ -497,6 +503,8 @@ func verifC21Class(op, impl string) string {
 	f := strings.Fields(op)
 	a := strings.Fields(impl)
 	switch f[0] {
+	case "reset":
+		return "reset"
 	case "exp":
 		w := verifutil.UnHexS(f[1])
 		switch {
@@ -530,10 +538,10 @@ func TestVerifC21(t *testing.T) {
 		}
 	}()
 	verifutil.Main(t, &verifutil.Harness{
-		ID: "C21", Exec: verifC21Exec, Gen: verifC21Gen, Quick: 4000, Thorough: 120000,
+		ID: "C21", Exec: verifC21Exec, Gen: verifC21Gen, Quick: 4000, Thorough: 80000,
 		Class: verifC21Class,
 		NonTrivial: func(op, impl string) bool {
-			return strings.Contains(verifutil.UnHexS(strings.Fields(op)[1]), "$")
+			return op != "reset" && strings.Contains(verifutil.UnHexS(strings.Fields(op)[1]), "$")
 		},
 	})
 }
